@@ -86,9 +86,6 @@ Fixpoint lookup (m : assoc) (k : string) : option string :=
   | (k', v) :: r => if String.eqb k' k then Some v else lookup r k
   end.
 
-(* the contract's reading of "the BHS_ variable of the key is set" *)
-Definition env_of_spec (penv : assoc) (k : string) : option string := lookup penv (env_name k).
-
 (* the code: viper's AutomaticEnv with AllowEmptyEnv off treats an empty variable as unset *)
 Definition env_of (penv : assoc) (k : string) : option string :=
   match lookup penv (env_name k) with
@@ -330,8 +327,73 @@ Definition load_with (envf : assoc -> string -> option string) (tbl : list entry
   | None => None
   end.
 
+(* the contract's reading of "the BHS_ variable of the key is set".  A variable that is present but EMPTY:
+   for a string-typed key the empty text is a value of the key's type, and the contract says it is the
+   effective value (the code ignores it: known finding env-empty-ignored); for a bool / int / uint16 / duration
+   key the empty text is NOT a value of the key's type, so the variable provides no value and the file or the
+   default decides - in particular a blank variable never makes Load fail and never reaches another key. *)
+Definition stringy (ty : string) : bool := String.eqb ty "string" || String.eqb ty "enum".
+
+Definition type_of (tbl : list entry) (k : string) : string :=
+  match find (fun e => String.eqb (e_key e) k) tbl with
+  | Some e => e_type e
+  | None => "string"
+  end.
+
+Definition env_of_spec (tbl : list entry) (penv : assoc) (k : string) : option string :=
+  match lookup penv (env_name k) with
+  | Some "" => if stringy (type_of tbl k) then Some "" else None
+  | o => o
+  end.
+
+(* SECTION-NAMED VARIABLES - HISTORY (fixed by commit 1a867b2).  Until then envConfig used viper.AutomaticEnv(), which
+   treats a non-empty variable named like a PARENT path of a nested key (BHS_HTTP for http.port, BHS_DB and
+   BHS_DB_POSTGRES for db.postgres.host) as shadowing that key: unless the key's own variable was set, the key
+   was reported as absent, the file's entry was not consulted and the pre-populated default stayed in force
+   (viper.find: isPathShadowedInAutoEnv).  Since 1a867b2 every known key is bound with viper.BindEnv(key) and a
+   variable named like a section reaches no key.  `shadowed` / `visible_file` / `load_model_old` describe the OLD
+   code; they are kept for the refutation lemma about it and so that the oracle can name the defect should it
+   return. *)
+Fixpoint section_prefixes (s acc : string) : list string :=
+  match s with
+  | EmptyString => []
+  | String c r =>
+    if Ascii.eqb c "."%char then acc :: section_prefixes r (acc ++ String c EmptyString)
+    else section_prefixes r (acc ++ String c EmptyString)
+  end.
+
+Definition shadowed (penv : assoc) (k : string) : bool :=
+  existsb (fun p => match lookup penv (env_name p) with
+                    | Some "" => false
+                    | Some _ => true
+                    | None => false
+                    end) (section_prefixes k EmptyString).
+
+Definition visible_file (penv filel : assoc) : assoc :=
+  filter (fun kv => negb (shadowed penv (fst kv))) filel.
+
+Definition load_model_old (tbl : list entry) (penv filel : assoc) : option assoc :=
+  load_with env_of tbl penv (visible_file penv filel).
+
+(* the code as it is: only the key's own variable enters *)
 Definition load_model := load_with env_of.
-Definition load_spec := load_with env_of_spec.
+Definition load_spec (tbl : list entry) := load_with (env_of_spec tbl) tbl.
+
+(* WHY Load refuses (beyond the file itself, see read_file below): a winning source value that cannot be decoded
+   into its key's type (viper.Unmarshal fails), or a resolved logging.level that zerolog.ParseLevel rejects
+   (logging.CreateLogger fails).  Nothing else in Load can fail: logging.format, instance_name and origin accept
+   anything. *)
+Inductive refusal := IllTypedValue | BadLogLevel.
+
+Definition load_refusal (envf : assoc -> string -> option string) (tbl : list entry) (penv filel : assoc) : option refusal :=
+  match sequence (map (fun e => option_map (fun v => (e_key e, v)) (effective envf penv filel e)) tbl) with
+  | None => Some IllTypedValue
+  | Some cfg =>
+    match lookup cfg "logging.level" with
+    | Some l => if valid_level l then None else Some BadLogLevel
+    | None => None
+    end
+  end.
 
 (* loadFromFile: WHICH file is read.  viper.SetConfigFile(path) reads exactly the path the user selected and
    takes the format from its extension; ReadInConfig refuses an extension outside viper.SupportedExts (in
@@ -374,10 +436,10 @@ Definition load_files_with (envf : assoc -> string -> option string) (tbl : list
   end.
 
 Definition load_files_model := load_files_with env_of.
-Definition load_files_spec := load_files_with env_of_spec.
+Definition load_files_spec (tbl : list entry) := load_files_with (env_of_spec tbl) tbl.
 
 Definition load_sel_model := load_sel_with env_of.
-Definition load_sel_spec := load_sel_with env_of_spec.
+Definition load_sel_spec (tbl : list entry) := load_sel_with (env_of_spec tbl) tbl.
 
 (* ------------------------------------------------------------------------------------------------ *)
 (* DbConfig.Validate *)
